@@ -351,9 +351,19 @@ def run_case(case, stats):
         chunk = image[p:]
         exp = ("val", _values_only(got[1]))
         whole_ba = bytearray(image)
-        for kind, obj in (("bytes", chunk), ("bytearray", bytearray(chunk)), ("memoryview", memoryview(chunk)),
-                          ("memoryview-slice-of-bytes", memoryview(image)[p:]), ("memoryview-slice-of-bytearray", memoryview(whole_ba)[p:]),
-                          ("memoryview-of-bytearray", memoryview(bytearray(chunk)))):
+        kinds_ = [("bytes", chunk), ("bytearray", bytearray(chunk)), ("memoryview", memoryview(chunk)),
+                  ("memoryview-slice-of-bytes", memoryview(image)[p:]), ("memoryview-slice-of-bytearray", memoryview(whole_ba)[p:]),
+                  ("memoryview-of-bytearray", memoryview(bytearray(chunk))),
+                  # subclasses of the bytes-like built-ins, and the library's OWN bytes values (the output of one parse used
+                  # as the input of the next): bytes-like objects like any other
+                  ("bytes-subclass", _BytesSub(chunk)), ("bytearray-subclass", _ByteArraySub(chunk))]
+        if chunk and not issubclass(root, bytes):
+            try:
+                kinds_.append(("char-array-value", cs2.char[len(chunk)](chunk)))
+                kinds_.append(("char-array-value-of-same-cstruct", cs.char[len(chunk)](chunk)))
+            except Exception:  # noqa: BLE001
+                pass
+        for kind, obj in kinds_:
             for form in ("call", "read", "reads", "cs.read"):
                 try:
                     if form == "call":
@@ -375,6 +385,14 @@ def run_case(case, stats):
                     raise Violation("input_kinds", "kind_or_form_differs",
                                     f"{kind} via {form} of image[{p}:] gives {g2}, stream parse gave {exp}", p=p)
         _cast_views(root, name, cs, chunk, stats, p)
+
+
+class _BytesSub(bytes):
+    pass
+
+
+class _ByteArraySub(bytearray):
+    pass
 
 
 def _cast_views(root, name, cs, chunk, stats, p):
